@@ -4221,3 +4221,361 @@ def ob_ctx_from_solution(ctx, n_actors):
         res.status, res.detail = 'inconclusive', 'vacuous'
     res.time = time.time() - t0
     return res
+
+
+# ---------------------------------------------------------------------------------------------------------------------
+# C05 / C01 (shared reload resource): the amount left per resource after the solution-level refresh, and the rule on it
+
+def ob_shared_resource_state(ctx, jobs_per_route):
+    """C05 (per-solution aggregate) + C01 (reload resource rule): `SharedResourceState::accept_solution_state` (real MIR:
+    `update_resource_consumption`, `get_total_demand`, T = SingleDimLoad) on a solution whose routes each start a reload
+    interval at a resource activity (capacity and resource id from the environment functions; all routes draw on ONE
+    resource) followed by jobs with symbolic resource demand; the previous per-activity values and the stale flags are
+    ARBITRARY.  Afterwards the value stored at every resource activity is capacity minus the demand of ALL routes on that
+    resource - whatever the flags and previous values were; `SharedResourceConstraint::evaluate` (real MIR) then accepts
+    a job activity in that interval exactly when its demand does not exceed that amount."""
+    from symex import AMapV, DynV
+    name = f'shared_resource_state[jobs per route={"+".join(map(str, jobs_per_route))}]'
+    res = Result(name)
+    res.bounds = (f'{len(jobs_per_route)} routes = start, resource activity, {jobs_per_route} jobs, end; one shared resource; capacity, demands, previous cached amounts '
+                  'symbolic in [0,2^14]; previous amount present/absent and stale flag per route symbolic')
+    t0 = time.time()
+    st_fns = ctx.prog.find_method('SharedResourceState', 'accept_solution_state')
+    ev_fns = ctx.prog.find_method('SharedResourceConstraint', 'evaluate')
+    if len(st_fns) != 1 or len(ev_fns) != 1:
+        raise Inconclusive('SharedResourceState::accept_solution_state / SharedResourceConstraint::evaluate not found')
+
+    class Env(drivers.Env):
+        symbolic_maps = True
+
+        def dyn_closure(self, engine, st, tag, args):
+            if tag == 'is_partial':
+                return BV(False)
+            if tag == 'capacity_fn':
+                act = deref_all(args[0])
+                job = self.field(act, 'route::Activity', 'job')
+                if job.variant() == 1 and any(job.payload[1][0].cell is c for c in self.marker_cells):
+                    return mk_option(True, Agg('tuple', [self.struct('load::SingleDimLoad', value=self.capacity), IV(0)], ''), ty='Option<(T, usize)>')
+                return mk_option(False, ty='Option<(T, usize)>')
+            if tag == 'demand_fn':
+                cell = deref_all(args[0])
+                single = args[0]
+                while isinstance(single, RefV) and not isinstance(single.load(), Agg):
+                    single = single.load()
+                holder_cell = single.container if isinstance(single, RefV) else None
+                for c, d in self.demand_of:
+                    if holder_cell is c:
+                        return mk_option(True, self.struct('load::SingleDimLoad', value=d), ty='Option<T>')
+                return mk_option(False, ty='Option<T>')
+            return super().dyn_closure(engine, st, tag, args)
+
+    env = Env(ctx.prog, ctx.layout, 14)
+    env.type_subst = {'T': 'load::SingleDimLoad'}
+    eng = symex.Engine(ctx.prog, ctx.layout, env)
+    z = FV.const(0)
+    holder = {}
+
+    def body(st):
+        env.assumptions.clear()
+        env.capacity = env.sym_i('resource_capacity', 0, 2 ** 14, 'i32')
+        env.marker_cells, env.demand_of = [], []
+        routes, demands, prevs, flags = [], [], [], []
+        for r, n in enumerate(jobs_per_route):
+            marker = ArcV(Cell(env.struct('jobs::Single', places=VecV([]), dimens=StateV({'job_id': Opaque(f'"resource{r}"')}))))
+            env.marker_cells.append(marker.cell)
+            acts = [env.activity(IV(0), z, z, FV.max_value(), z, z, has_job=False), env.activity(IV(0), z, z, FV.max_value(), z, z, job=marker)]
+            ds = []
+            for j in range(n):
+                s_ = ArcV(Cell(env.struct('jobs::Single', places=VecV([]), dimens=StateV({'job_id': Opaque(f'"job_r{r}_{j}"')}))))
+                d = env.sym_i(f'demand_r{r}_j{j}', 0, 2 ** 12, 'i32')
+                env.demand_of.append((s_.cell, d))
+                ds.append(d)
+                acts.append(env.activity(IV(0), z, z, FV.max_value(), z, z, job=s_))
+            acts.append(env.activity(IV(0), z, z, FV.max_value(), z, z, has_job=False))
+            total = len(acts)
+            actor = env.actor(IV(0), z, IV(0), FV.const(1000))
+            tour = env.struct('solution::tour::Tour', activities=VecV(acts), jobs=symex.SetV(n + 1), is_closed=BV(True))
+            route = env.struct('route::Route', actor=actor, tour=tour)
+            # previous cache: arbitrary amount (present or absent) at the resource activity
+            has_prev, prev = z3.Bool(f'previous_present_r{r}'), env.sym_i(f'previous_amount_r{r}', 0, 2 ** 14, 'i32')
+            prev_vec = VecV([mk_option(False, ty='Option<T>') if i != 1 else mk_option(has_prev, env.struct('load::SingleDimLoad', value=prev), ty='Option<T>') for i in range(total)])
+            intervals = VecV([Agg('tuple', [IV(0), IV(0)], ''), Agg('tuple', [IV(1), IV(total - 1)], '')])
+            state = StateV({'reload_intervals': intervals, 'generic_activity_states': prev_vec})
+            stale = z3.Bool(f'stale_r{r}')
+            routes.append(env.struct('context::RouteContext', route=route, state=state, cache=env.struct('context::RouteCache', is_stale=BV(stale))))
+            demands.append(ds)
+        sol = env.struct('context::SolutionContext', required=VecV([]), ignored=VecV([]), unassigned=AMapV(), locked=AMapV(is_set=True), routes=VecV(routes),
+                         registry=Opaque('registry'), state=StateV())
+        cell = Cell(sol)
+        fstate = env.struct('reloads::SharedResourceState', resource_capacity_fn=ArcV(Cell(DynV('capacity_fn'))), resource_demand_fn=ArcV(Cell(DynV('demand_fn'))),
+                            is_partial_solution_fn=ArcV(Cell(DynV('is_partial'))))
+        eng.exec_fn(st, st_fns[0], [RefV(Cell(fstate), 0), RefV(cell, 0, True)])
+        now = env.field(cell.v, 'context::SolutionContext', 'routes').items
+        # the rule, asked for the last route: a new job activity with symbolic demand right after the resource activity
+        target_single = ArcV(Cell(env.struct('jobs::Single', places=VecV([]), dimens=StateV({'job_id': Opaque('"target"')}))))
+        td = env.sym_i('target_demand', 0, 2 ** 14, 'i32')
+        env.demand_of.append((target_single.cell, td))
+        rc = now[-1]
+        acts = env.tour_activities(rc)
+        target = env.activity(IV(0), z, z, FV.max_value(), z, z, job=target_single)
+        actx = env.struct('context::ActivityContext', index=IV(1), prev=RefV(Cell(acts[1]), 0), target=RefV(Cell(target), 0), next=mk_option(True, RefV(Cell(acts[2]), 0), ty='Option<&Activity>'))
+        move = EnumV('context::MoveContext', 1, {1: [RefV(cell, 0), RefV(Cell(rc), 0), RefV(Cell(actx), 0)]})
+        constraint = env.struct('reloads::SharedResourceConstraint', violation_code=Agg('struct', [IV(9, 'i32')], 'ViolationCode'),
+                                resource_demand_fn=ArcV(Cell(DynV('demand_fn'))), is_partial_solution_fn=ArcV(Cell(DynV('is_partial'))))
+        verdict = eng.exec_fn(st, ev_fns[0], [RefV(Cell(constraint), 0), RefV(Cell(move), 0)])
+        holder.update(demands=demands, td=td)
+        return (now, verdict)
+
+    paths = eng.explore(body, max_paths=20000)
+    res.paths = len(paths)
+    res.functions |= eng.functions_used
+    saw_acc = saw_rej = False
+    for st, out in paths:
+        if out is None:
+            if not no_panic(ctx, res, env, st, what=name):
+                break
+            continue
+        now, verdict = out
+        demands, td = holder['demands'], holder['td']
+        total_demand = sum([d.t for ds in demands for d in ds], z3.IntVal(0))
+        left = env.capacity.t - total_demand
+        conds = []
+        for rc in now:
+            vec = env.field(rc, 'context::RouteContext', 'state').table.get('generic_activity_states')
+            if vec is None:
+                conds.append(z3.BoolVal(False))
+                continue
+            for i, slot in enumerate(vec.items):
+                slot = deref_all(slot)
+                if i == 1:
+                    conds.append(z3.And(slot.discr == 1, env.field(slot.payload[1][0], 'load::SingleDimLoad', 'value').t == left) if 1 in slot.payload else z3.BoolVal(False))
+                else:
+                    conds.append(slot.discr == 0)
+        rejected = verdict.discr == 1 if hasattr(verdict, 'discr') else None
+        conds.append(rejected == (td.t > left))
+        # the total may exceed the capacity in an arbitrary solution: keep to solutions that respect the resource (the rule maintains that)
+        pre = [left >= 0]
+        if not decide_claim(ctx, res, env, st, z3.And(*conds), pre, what=f'{name}: stored amount == capacity - demand of all routes; rule accepts iff demand <= amount'):
+            if res.status == 'violated' and res.model is not None:
+                m = res.model
+                ev = lambda t: m.eval(t, model_completion=True).as_long()
+                res.case = {'kind': 'shared_resource', 'capacity': ev(env.capacity.t), 'demands': [[ev(d.t) for d in ds] for ds in demands], 'target_demand': ev(td.t),
+                            'stale': [bool(z3.is_true(m.eval(z3.Bool(f'stale_r{r}'), model_completion=True))) for r in range(len(jobs_per_route))]}
+            break
+        if not no_panic(ctx, res, env, st, pre, what=name):
+            break
+        saw_acc = saw_acc or witness(ctx, res, env, st, z3.And(td.t <= left, td.t > 0), pre)
+        saw_rej = saw_rej or witness(ctx, res, env, st, td.t > left, pre)
+    if res.status == 'holds':
+        res.witnesses = int(saw_acc) + int(saw_rej)
+        if not (saw_acc and saw_rej):
+            res.status, res.detail = 'inconclusive', f'vacuous: accept={saw_acc} reject={saw_rej}'
+    res.time = time.time() - t0
+    return res
+
+
+# ---------------------------------------------------------------------------------------------------------------------
+# C01: skills and compatibility rules
+
+def ob_skills_gate(ctx, n_skills):
+    """C01 (required skills): `SkillsConstraint::evaluate` (real MIR incl. `check_all_of / check_one_of / check_none_of`) for a
+    job whose three skill lists (each present or absent, membership of every skill symbolic) meet a vehicle whose skill set is
+    present or absent with symbolic membership: the job is admitted to the vehicle exactly when every all-of skill is a
+    vehicle skill, at least one one-of skill is (if the list is given) and no none-of skill is."""
+    from symex import ASetV
+    name = f'skills_gate[skills={n_skills}]'
+    res = Result(name)
+    res.bounds = f'universe of {n_skills} skills; job lists allOf / oneOf / noneOf each present or absent, membership symbolic (a present list is non-empty, as JobSkills::new guarantees); vehicle set present or absent'
+    t0 = time.time()
+    fns = ctx.prog.find_method('SkillsConstraint', 'evaluate')
+    if len(fns) != 1:
+        raise Inconclusive('SkillsConstraint::evaluate not found')
+
+    class Env(drivers.Env):
+        symbolic_maps = True
+
+    env = Env(ctx.prog, ctx.layout, 8)
+    eng = symex.Engine(ctx.prog, ctx.layout, env)
+    U = [Opaque(f'"skill{i}"') for i in range(n_skills)]
+    z = FV.const(0)
+    holder = {}
+
+    def body(st):
+        env.assumptions.clear()
+
+        def sym_set(tag):
+            mem = [z3.Bool(f'{tag}_{i}') for i in range(n_skills)]
+            return ASetV(list(U), mem), mem
+        lists, present = {}, {}
+        for key in ('all_of', 'one_of', 'none_of'):
+            sv, mem = sym_set(key)
+            has = z3.Bool(f'{key}_given')
+            env.assumptions.append(z3.Implies(has, z3.Or(*mem)))        # JobSkills::new turns an empty list into None
+            lists[key], present[key] = (sv, mem), has
+        opt = lambda key: mk_option(present[key], lists[key][0], ty='Option<HashSet<String>>')
+        skills = env.struct('skills::JobSkills', all_of=opt('all_of'), one_of=opt('one_of'), none_of=opt('none_of'))
+        job_has = z3.Bool('job_has_skills')
+        job_dimens = StateV({'job_skills': mk_option(job_has, RefV(Cell(skills), 0), ty='Option<&JobSkills>')})
+        single = ArcV(Cell(env.struct('jobs::Single', places=VecV([]), dimens=job_dimens)))
+        job = EnumV('jobs::Job', 0, {0: [single]})
+        vs, vmem = sym_set('vehicle')
+        v_has = z3.Bool('vehicle_has_skills')
+        vdim = StateV({'vehicle_skills': mk_option(v_has, RefV(Cell(vs), 0), ty='Option<&HashSet<String>>')})
+        actor = env.actor(IV(0), z, IV(0), FV.const(1000), dimens=vdim)
+        acts = [env.activity(IV(0), z, z, FV.max_value(), z, z, has_job=False), env.activity(IV(0), z, z, FV.max_value(), z, z, has_job=False)]
+        rc = env.route_ctx(actor, acts, True)
+        move = EnumV('context::MoveContext', 0, {0: [RefV(Cell(Opaque('solution_ctx')), 0), RefV(Cell(rc), 0), RefV(Cell(job), 0)]})
+        constraint = env.struct('skills::SkillsConstraint', code=Agg('struct', [IV(11, 'i32')], 'ViolationCode'))
+        holder.update(lists=lists, present=present, job_has=job_has, v_has=v_has, vmem=vmem)
+        return eng.exec_fn(st, fns[0], [RefV(Cell(constraint), 0), RefV(Cell(move), 0)])
+
+    paths = eng.explore(body, max_paths=20000)
+    res.paths = len(paths)
+    res.functions |= eng.functions_used
+    saw_a = saw_r = False
+    for st, out in paths:
+        if out is None:
+            if not no_panic(ctx, res, env, st, what=name):
+                break
+            continue
+        lists, present, job_has, v_has, vmem = (holder[k] for k in ('lists', 'present', 'job_has', 'v_has', 'vmem'))
+        inv = lambda i: z3.And(v_has, vmem[i])            # skill i is a skill of the vehicle
+        all_ok = z3.Or(z3.Not(present['all_of']), z3.And(*[z3.Implies(lists['all_of'][1][i], inv(i)) for i in range(n_skills)]))
+        one_ok = z3.Or(z3.Not(present['one_of']), z3.Or(*[z3.And(lists['one_of'][1][i], inv(i)) for i in range(n_skills)]))
+        none_ok = z3.Or(z3.Not(present['none_of']), z3.And(*[z3.Not(z3.And(lists['none_of'][1][i], inv(i))) for i in range(n_skills)]))
+        admitted = z3.Or(z3.Not(job_has), z3.And(all_ok, one_ok, none_ok))
+        accepted = out.discr == 0
+        if not decide_claim(ctx, res, env, st, accepted == admitted, what=f'{name}: admitted <=> allOf subset, oneOf meets, noneOf disjoint'):
+            if res.status == 'violated' and res.model is not None:
+                m = res.model
+                tv = lambda b: bool(z3.is_true(m.eval(b, model_completion=True)))
+                pick = lambda key: [f'skill{i}' for i in range(n_skills) if tv(lists[key][1][i])] if tv(present[key]) else None
+                res.case = {'kind': 'skills', 'job': ({'all_of': pick('all_of'), 'one_of': pick('one_of'), 'none_of': pick('none_of')} if tv(job_has) else None),
+                            'vehicle': ([f'skill{i}' for i in range(n_skills) if tv(vmem[i])] if tv(v_has) else None)}
+            break
+        if not no_panic(ctx, res, env, st, what=name):
+            break
+        saw_a = saw_a or witness(ctx, res, env, st, z3.And(accepted, job_has, present['all_of']))
+        saw_r = saw_r or witness(ctx, res, env, st, z3.Not(accepted))
+    if res.status == 'holds':
+        res.witnesses = int(saw_a) + int(saw_r)
+        if not (saw_a and saw_r):
+            res.status, res.detail = 'inconclusive', f'vacuous: accept={saw_a} reject={saw_r}'
+    res.time = time.time() - t0
+    return res
+
+
+def ob_compatibility_state(ctx, n_jobs):
+    """C05 (compatibility tag) + C01 (compatibility rule): `CompatibilityState::accept_route_state` (real MIR) on a route whose
+    jobs carry a symbolic compatibility class (none / c1 / c2; classes within one tour agree - the invariant the rule maintains)
+    and an ARBITRARY previous tag: afterwards the tag is the class of the tour's jobs, absent if no job has one.
+    `CompatibilityConstraint::evaluate` (real MIR) then rejects a job exactly when it has a class, the tour has one, and they
+    differ."""
+    from symex import AMapV
+    name = f'compatibility_state[jobs={n_jobs}]'
+    res = Result(name)
+    res.bounds = f'one route with {n_jobs} single jobs, class per job symbolic in {{none, c1, c2}} (no two different classes in one tour); previous tag absent / c-old / c1; evaluated job class symbolic'
+    t0 = time.time()
+    st_fns = ctx.prog.find_method('CompatibilityState', 'accept_route_state')
+    ev_fns = ctx.prog.find_method('CompatibilityConstraint', 'evaluate')
+    if len(st_fns) != 1 or len(ev_fns) != 1:
+        raise Inconclusive('CompatibilityState::accept_route_state / CompatibilityConstraint::evaluate not found')
+    CLASSES = (None, 'c1', 'c2')
+
+    class Env(drivers.Env):
+        symbolic_maps = True
+
+        def override(self, engine, st, callee, args, dest_ty):
+            if callee.endswith('Activity::retrieve_job'):
+                return NotImplemented
+            if callee.endswith('Multi::roots'):
+                return mk_option(False, ty=dest_ty)
+            return super().override(engine, st, callee, args, dest_ty)
+
+    env = Env(ctx.prog, ctx.layout, 8)
+    eng = symex.Engine(ctx.prog, ctx.layout, env)
+    z = FV.const(0)
+
+    def body(st):
+        env.assumptions.clear()
+
+        def single(nm, cls):
+            dim = {'job_id': Opaque(f'"{nm}"')}
+            if cls is not None:
+                dim['job_compatibility'] = Opaque(f'"{cls}"')
+            return ArcV(Cell(env.struct('jobs::Single', places=VecV([]), dimens=StateV(dim))))
+        acts = [env.activity(IV(0), z, z, FV.max_value(), z, z, has_job=False)]
+        jobs, classes = [], []
+        for j in range(n_jobs):
+            c = z3.Int(f'class_j{j}')
+            cls = eng.choose(st, [(c == i, x) for i, x in enumerate(CLASSES) if x is None or not classes or all(y in (None, x) for y in classes)])
+            s_ = single(f'job{j}', cls)
+            acts.append(env.activity(IV(0), z, z, FV.max_value(), z, z, job=s_))
+            jobs.append(EnumV('jobs::Job', 0, {0: [s_]}))
+            classes.append(cls)
+        acts.append(env.activity(IV(0), z, z, FV.max_value(), z, z, has_job=False))
+        actor = env.actor(IV(0), z, IV(0), FV.const(1000))
+        tour = env.struct('solution::tour::Tour', activities=VecV(acts), jobs=AMapV([(jv, UnitV()) for jv in jobs], True), is_closed=BV(True))
+        p = z3.Int('previous_tag')
+        prev = eng.choose(st, [(p == 0, None), (p == 1, 'c-old'), (p == 2, 'c1')])
+        state = StateV({} if prev is None else {'current_compatibility': Opaque(f'"{prev}"')})
+        rc = env.struct('context::RouteContext', route=env.struct('route::Route', actor=actor, tour=tour), state=state,
+                        cache=env.struct('context::RouteCache', is_stale=BV(z3.Bool('stale'))))
+        cell = Cell(rc)
+        eng.exec_fn(st, st_fns[0], [RefV(Cell(Agg('struct', [], 'compatibility::CompatibilityState')), 0), RefV(cell, 0, True)])
+        c = z3.Int('class_of_evaluated_job')
+        cls = eng.choose(st, [(c == i, x) for i, x in enumerate(CLASSES)])
+        job = EnumV('jobs::Job', 0, {0: [single('evaluated', cls)]})
+        move = EnumV('context::MoveContext', 0, {0: [RefV(Cell(Opaque('solution_ctx')), 0), RefV(cell, 0), RefV(Cell(job), 0)]})
+        constraint = env.struct('compatibility::CompatibilityConstraint', code=Agg('struct', [IV(12, 'i32')], 'ViolationCode'))
+        verdict = eng.exec_fn(st, ev_fns[0], [RefV(Cell(constraint), 0), RefV(Cell(move), 0)])
+        return (classes, prev, cls, cell.v, verdict)
+
+    paths = eng.explore(body, max_paths=20000)
+    res.paths = len(paths)
+    res.functions |= eng.functions_used
+    saw_a = saw_r = False
+
+    def order(item):
+        _, out = item
+        if out is None:
+            return 2
+        classes, prev, cls, _, verdict = out
+        tc = next((x for x in classes if x is not None), None)
+        must = cls is not None and tc is not None and cls != tc
+        rej = verdict.variant()
+        wrong = rej is not None and bool(rej) != must
+        return 0 if (wrong and prev is None) else 1 if wrong else 2
+    for st, out in sorted(paths, key=order):
+        if out is None:
+            if not no_panic(ctx, res, env, st, what=name):
+                break
+            continue
+        classes, prev, cls, rc, verdict = out
+        tour_class = next((x for x in classes if x is not None), None)
+        tag = env.field(rc, 'context::RouteContext', 'state').table.get('current_compatibility')
+        got = deref_all(tag).name.strip('"') if tag is not None else None
+        problems = []
+        if got != tour_class:
+            problems.append(f'cached class {got}, class of the jobs in the tour {tour_class}')
+        must_reject = cls is not None and tour_class is not None and cls != tour_class
+        rejected = verdict.variant()
+        if rejected is None:
+            res.status, res.detail = 'inconclusive', 'symbolic verdict'
+            break
+        if bool(rejected) != must_reject:
+            problems.append(f'a job of class {cls} is {"rejected" if rejected else "accepted"} by a tour of class {tour_class}')
+        if not decide_claim(ctx, res, env, st, z3.BoolVal(not problems), what=f'{name}: ' + '; '.join(problems)):
+            if res.status == 'violated':
+                res.case = {'kind': 'compatibility', 'classes': classes, 'previous_tag': prev, 'class': cls}
+            break
+        if not no_panic(ctx, res, env, st, what=name):
+            break
+        saw_a = saw_a or not must_reject
+        saw_r = saw_r or must_reject
+    if res.status == 'holds':
+        res.witnesses = int(saw_a) + int(saw_r)
+        if n_jobs > 0 and not (saw_a and saw_r):
+            res.status, res.detail = 'inconclusive', f'vacuous: accept={saw_a} reject={saw_r}'
+    res.time = time.time() - t0
+    return res
